@@ -779,6 +779,12 @@ func (c *SpecCtx) call(n *Node) SV {
 		}
 		k, _ := strconv.Atoi(n.Args[0].Name)
 		return boolSV(c.cur.H(e.exitedHeap(k)))
+	case "deepEqual":
+		// deepEqual(x, y): reflect.DeepEqual of two interface values (uninterpreted; meaningful within one state only -
+		// use it in bodyensures clauses)
+		a, b := c.eval(n.Args[0]), c.eval(n.Args[1])
+		e.declRaw("deep_equal", "(declare-fun deep_equal (Iface Iface) Bool)")
+		return boolSV(app("deep_equal", a.T, b.T))
 	case "dyncalls":
 		// dyncalls(): have calls through function values happened since entry (epoch changed)
 		e.heap("G$dyn", "Int")
